@@ -267,6 +267,15 @@ def run_shard(shard, tier, seed, acc) -> None:
             acc.transitions += len(cuts) + 1
             if cuts:
                 acc.nt_counted()
+            if target == len(replies) - 1 and (len(cuts) <= 1 or cuts[0] <= 4):  # (only when no further exchange follows)
+                # the peer closes right after a COMPLETE reply: FIN delivered together with the last segment, or one step behind it
+                parts = split(reply, cuts)
+                for fin, chunks in (("fin-with", parts[:-1] + [(parts[-1], None)]), ("fin-behind", parts + [None])):
+                    got = execute(api, kind, chunks)
+                    judge_complete(acc, api, kind, cuts, base, got, "cuts+" + fin)
+                    cnt += 1
+                    acc.nt_counted()
+                    acc.transitions += len(cuts) + 2
         acc.ev(cnt)
         acc.states += cnt
         acc.sample({"api": api, "reply": kind, "bytes": n, "schedule": "chunks end at " + str(list(cuts))})
@@ -370,7 +379,12 @@ def replay(case, seed, acc) -> None:
     else:
         cuts = tuple(case[3]) if label != "bytes" else tuple(range(1, len(reply)))
         base = execute(api, kind, [reply])
-        judge_complete(acc, api, kind, cuts, base, execute(api, kind, split(reply, cuts)), label)
+        parts = split(reply, cuts)
+        if label.endswith("+fin-with"):
+            parts = parts[:-1] + [(parts[-1], None)]
+        elif label.endswith("+fin-behind"):
+            parts = parts + [None]
+        judge_complete(acc, api, kind, cuts, base, execute(api, kind, parts), label)
 
 
 def finish(tier, seed, merged) -> None:
